@@ -133,6 +133,35 @@ fn share_at(m: &Value, n: usize, t: usize) -> (&'static str, usize, String) {
     }
 }
 
+/// The header's DAH with roots altered (spec: DahAlts); `other` is the DAH of another block's square
+/// of the same width.  The result is not the DAH of any square the harness knows.
+fn alter_dah(base: &DataAvailabilityHeader, other: &DataAvailabilityHeader, alt: &str) -> DataAvailabilityHeader {
+    let mut rows = base.row_roots().to_vec();
+    let mut cols = base.column_roots().to_vec();
+    let w = rows.len();
+    if other.row_roots().len() != w {
+        tool_error("alter_dah: squares of different width");
+    }
+    match alt {
+        "col_other" => cols[1] = other.column_roots()[1].clone(),
+        "col_row" => cols[0] = rows[1].clone(),
+        "col_swap" => cols.swap(0, w - 1),
+        "row_other" => rows[1] = other.row_roots()[1].clone(),
+        "row_col" => rows[0] = cols[1].clone(),
+        "row_swap" => rows.swap(0, w - 1),
+        "both" => {
+            rows[1] = other.row_roots()[1].clone();
+            cols[1] = other.column_roots()[1].clone();
+        }
+        _ => tool_error(&format!("bad DAH alteration {alt}")),
+    }
+    let d = DataAvailabilityHeader::new_unchecked(rows, cols);
+    if d == *base {
+        tool_error(&format!("DAH alteration {alt} changed nothing"));
+    }
+    d
+}
+
 fn stage_of(e: &VCodecError) -> &'static str {
     match e {
         VCodecError::ResponseDecode(s) if s.contains("Empty raw data") => "empty",
@@ -218,9 +247,16 @@ pub fn replay(args: &Args) {
         }
 
         // ---- the header's square
+        let hdr_alt = c["hdr"]["alt"].as_str().unwrap_or("none");
+        let altered: DataAvailabilityHeader;
         let (hdr_dah, hdr_eds): (&DataAvailabilityHeader, &ExtendedDataSquare) = {
             let h = sqs.sq(hdr_k, hdr_tag, sv1);
-            (&h.dah, &h.eds)
+            if hdr_alt == "none" {
+                (&h.dah, &h.eds)
+            } else {
+                altered = alter_dah(&h.dah, &b.dah, hdr_alt);
+                (&altered, &h.eds)
+            }
         };
 
         // ---- app versions: the header's own one when the classes agree, else every member of the foreign class
@@ -263,7 +299,7 @@ pub fn replay(args: &Args) {
             if bad {
                 let gotk = if got.starts_with("panic") { panic_kind(&got) } else { got.clone() };
                 let class = json!({"kind": kind, "demand": demand, "got": gotk, "wrong_square": wrong_square.is_some(),
-                                   "hdr": if hdr_tag == TAG_A { "own" } else { "other" }, "app_match": happ == app});
+                                   "hdr": if hdr_alt != "none" { "altered-dah" } else if hdr_tag == TAG_A { "own" } else { "other" }, "app_match": happ == app});
                 sum.violation(
                     "C09",
                     json!({
